@@ -96,6 +96,9 @@ fn c19_heap_4() {
     let n: usize = kani::any();
     kani::assume(n <= N);
     let fail_at: u8 = kani::any();
+    crate::trace!(items = items);
+    crate::trace!(n = n);
+    crate::trace!(fail_at = fail_at);
     let mut calls: u8 = 0;
     let mut heap = TryHeap::with_capacity(N, |a: &El, b: &El| -> XResult<bool, (), (), ()> {
         calls += 1;
